@@ -721,4 +721,329 @@ theorem tuple_conf (p : Nat) (ts : List CqlTy) (hne : ts ≠ []) (r : MRes) (ocs
   | crash => exact h.elim
   | unmodelled => exact h.elim
 
+/-! ### the induction -/
+
+theorem wfAll_mem : ∀ vs, wfAll vs → ∀ v ∈ vs, wf v
+  | [], _, _, hv => by cases hv
+  | a :: r, h, v, hv => by
+    simp only [wfAll] at h
+    rcases List.mem_cons.mp hv with rfl | hv
+    · exact h.1
+    · exact wfAll_mem r h.2 v hv
+
+theorem documentedAll_mem (et : CqlTy) : ∀ vs, documentedAll et vs = true → ∀ v ∈ vs, documented et v = true
+  | [], _, _, hv => by cases hv
+  | a :: r, h, v, hv => by
+    simp only [documentedAll, Bool.and_eq_true] at h
+    rcases List.mem_cons.mp hv with rfl | hv
+    · exact h.1
+    · exact documentedAll_mem et r h.2 v hv
+
+theorem excludedElems_mem (p : Nat) (et : CqlTy) : ∀ vs, excludedElems p et vs = false → ∀ v ∈ vs, excluded p et v = false
+  | [], _, _, hv => by cases hv
+  | a :: r, h, v, hv => by
+    simp only [excludedElems, Bool.or_eq_false_iff] at h
+    rcases List.mem_cons.mp hv with rfl | hv
+    · exact h.1.1
+    · exact excludedElems_mem p et r h.2 v hv
+
+theorem wfPairs_mem : ∀ kvs, wfPairs kvs → ∀ kv ∈ kvs, wf kv.1 ∧ wf kv.2
+  | [], _, _, hv => by cases hv
+  | (a, b) :: r, h, kv, hv => by
+    simp only [wfPairs] at h
+    rcases List.mem_cons.mp hv with rfl | hv
+    · exact ⟨h.1, h.2.1⟩
+    · exact wfPairs_mem r h.2.2 kv hv
+
+theorem documentedPairs_mem (kt vt : CqlTy) : ∀ kvs, documentedPairs kt vt kvs = true →
+    ∀ kv ∈ kvs, documented kt kv.1 = true ∧ documented vt kv.2 = true
+  | [], _, _, hv => by cases hv
+  | (a, b) :: r, h, kv, hv => by
+    simp only [documentedPairs, Bool.and_eq_true] at h
+    rcases List.mem_cons.mp hv with rfl | hv
+    · exact ⟨h.1.1, h.1.2⟩
+    · exact documentedPairs_mem kt vt r h.2 kv hv
+
+theorem excludedPairs_mem (p : Nat) (kt vt : CqlTy) : ∀ kvs, excludedPairs p kt vt kvs = false →
+    ∀ kv ∈ kvs, excluded p kt kv.1 = false ∧ excluded p vt kv.2 = false
+  | [], _, _, hv => by cases hv
+  | (a, b) :: r, h, kv, hv => by
+    simp only [excludedPairs, Bool.or_eq_false_iff] at h
+    rcases List.mem_cons.mp hv with rfl | hv
+    · exact ⟨h.1.1.1, h.1.1.2⟩
+    · exact excludedPairs_mem p kt vt r h.2 kv hv
+
+theorem allconf_of (p : Nat) : ∀ (ts : List CqlTy) (vs : List GoVal),
+    (∀ v ∈ vs, ∀ t, nest t = true → wf v → documented t v = true → excluded p t v = false →
+      Conf p t (marshal p t v) (interp t v)) →
+    nestAll ts = true → wfAll vs → documentedFields ts vs = true → excludedFields p ts vs = false → AllConf p ts vs
+  | [], _, _, _, _, _, _ => by simp [AllConf]
+  | _ :: _, [], _, _, _, _, _ => by simp [AllConf]
+  | t :: ts, v :: vs, H, hn, hw, hd, hx => by
+    simp only [nestAll, Bool.and_eq_true] at hn
+    simp only [wfAll] at hw
+    simp only [documentedFields, Bool.and_eq_true] at hd
+    simp only [excludedFields, Bool.or_eq_false_iff] at hx
+    exact ⟨H v (List.mem_cons_self ..) t hn.1 hw.1 hd.1 hx.1,
+      allconf_of p ts vs (fun w hw' => H w (List.mem_cons_of_mem _ hw')) hn.2 hw.2 hd.2 hx.2⟩
+
+theorem conf_aux (p : Nat) (hp : p ≥ 3) : ∀ (n : Nat) (g : GoVal) (t : CqlTy), sizeOf g ≤ n → nest t = true → wf g →
+    documented t g = true → excluded p t g = false → Conf p t (marshal p t g) (interp t g) := by
+  intro n
+  induction n with
+  | zero =>
+    intro g t hs
+    exfalso
+    cases g <;> simp at hs
+  | succ n ih =>
+    intro g t hs hn hw hd hx
+    cases g with
+    | nilptr => simp [marshal, interp, Conf]
+    | ptr v =>
+      simp only [wf, documented, excluded] at hw hd hx
+      simp only [marshal, interp]
+      exact ih v t (by simp at hs; omega) hn hw hd hx
+    | nil =>
+      cases t <;> first
+        | (simp [nest] at hn; done)
+        | (simp only [marshal, interp, wf, documented, excluded] at *; exact scalar_conf p _ _ rfl hw hd hx)
+        | (simp [marshal, interp, Conf]; done)
+        | (simp [documented] at hd; done)
+    | unset =>
+      cases t <;> first
+        | (simp [nest] at hn; done)
+        | (simp only [marshal, interp, wf, documented, excluded] at *; exact scalar_conf p _ _ rfl hw hd hx)
+        | (simp [marshal, interp, Conf]; done)
+        | (simp [documented] at hd; done)
+    | int k named v =>
+      cases t <;> first
+        | (simp [nest] at hn; done)
+        | (simp only [marshal, interp, wf, documented, excluded] at *; exact scalar_conf p _ _ rfl hw hd hx)
+        | (simp [marshal, interp, Conf]; done)
+        | (simp [documented] at hd; done)
+    | str named s =>
+      cases t <;> first
+        | (simp [nest] at hn; done)
+        | (simp only [marshal, interp, wf, documented, excluded] at *; exact scalar_conf p _ _ rfl hw hd hx)
+        | (simp [marshal, interp, Conf]; done)
+        | (simp [documented] at hd; done)
+    | bytes named isNil b =>
+      cases t <;> first
+        | (simp [nest] at hn; done)
+        | (simp only [marshal, interp, wf, documented, excluded] at *; exact scalar_conf p _ _ rfl hw hd hx)
+        | (simp [marshal, interp, Conf]; done)
+        | (simp [documented] at hd; done)
+    | bool named b =>
+      cases t <;> first
+        | (simp [nest] at hn; done)
+        | (simp only [marshal, interp, wf, documented, excluded] at *; exact scalar_conf p _ _ rfl hw hd hx)
+        | (simp [marshal, interp, Conf]; done)
+        | (simp [documented] at hd; done)
+    | f32 named x =>
+      cases t <;> first
+        | (simp [nest] at hn; done)
+        | (simp only [marshal, interp, wf, documented, excluded] at *; exact scalar_conf p _ _ rfl hw hd hx)
+        | (simp [marshal, interp, Conf]; done)
+        | (simp [documented] at hd; done)
+    | f64 named x =>
+      cases t <;> first
+        | (simp [nest] at hn; done)
+        | (simp only [marshal, interp, wf, documented, excluded] at *; exact scalar_conf p _ _ rfl hw hd hx)
+        | (simp [marshal, interp, Conf]; done)
+        | (simp [documented] at hd; done)
+    | big v =>
+      cases t <;> first
+        | (simp [nest] at hn; done)
+        | (simp only [marshal, interp, wf, documented, excluded] at *; exact scalar_conf p _ _ rfl hw hd hx)
+        | (simp [marshal, interp, Conf]; done)
+        | (simp [documented] at hd; done)
+    | dec u sc =>
+      cases t <;> first
+        | (simp [nest] at hn; done)
+        | (simp only [marshal, interp, wf, documented, excluded] at *; exact scalar_conf p _ _ rfl hw hd hx)
+        | (simp [marshal, interp, Conf]; done)
+        | (simp [documented] at hd; done)
+    | time sec nsec =>
+      cases t <;> first
+        | (simp [nest] at hn; done)
+        | (simp only [marshal, interp, wf, documented, excluded] at *; exact scalar_conf p _ _ rfl hw hd hx)
+        | (simp [marshal, interp, Conf]; done)
+        | (simp [documented] at hd; done)
+    | dur ns =>
+      cases t <;> first
+        | (simp [nest] at hn; done)
+        | (simp only [marshal, interp, wf, documented, excluded] at *; exact scalar_conf p _ _ rfl hw hd hx)
+        | (simp [marshal, interp, Conf]; done)
+        | (simp [documented] at hd; done)
+    | cqldur m d n2 =>
+      cases t <;> first
+        | (simp [nest] at hn; done)
+        | (simp only [marshal, interp, wf, documented, excluded] at *; exact scalar_conf p _ _ rfl hw hd hx)
+        | (simp [marshal, interp, Conf]; done)
+        | (simp [documented] at hd; done)
+    | uuid b =>
+      cases t <;> first
+        | (simp [nest] at hn; done)
+        | (simp only [marshal, interp, wf, documented, excluded] at *; exact scalar_conf p _ _ rfl hw hd hx)
+        | (simp [marshal, interp, Conf]; done)
+        | (simp [documented] at hd; done)
+    | arr16 b =>
+      cases t <;> first
+        | (simp [nest] at hn; done)
+        | (simp only [marshal, interp, wf, documented, excluded] at *; exact scalar_conf p _ _ rfl hw hd hx)
+        | (simp [marshal, interp, Conf]; done)
+        | (simp [documented] at hd; done)
+    | ip b =>
+      cases t <;> first
+        | (simp [nest] at hn; done)
+        | (simp only [marshal, interp, wf, documented, excluded] at *; exact scalar_conf p _ _ rfl hw hd hx)
+        | (simp [marshal, interp, Conf]; done)
+        | (simp [documented] at hd; done)
+    | slice isNil vs =>
+      cases t with
+      | list et =>
+        have hn' : nest et = true := by simpa [nest] using hn
+        simp only [wf, documented, excluded] at hw hd hx
+        have hel : ∀ v ∈ vs, Conf p et (marshal p et v) (interp et v) := fun v hv =>
+          ih v et (by have := List.sizeOf_lt_of_mem hv; simp at hs; omega) hn' (wfAll_mem vs hw v hv)
+            (documentedAll_mem et vs hd v hv) (excludedElems_mem p et vs hx v hv)
+        have hc := seq_conf p hp et _ _ _ (elems_conf p hp et vs hel)
+        simp only [marshal, interp]
+        cases isNil <;> first | exact hc.1 | exact hc.2 | simp [Conf]
+      | set et =>
+        have hn' : nest et = true := by simpa [nest] using hn
+        simp only [wf, documented, excluded] at hw hd hx
+        have hel : ∀ v ∈ vs, Conf p et (marshal p et v) (interp et v) := fun v hv =>
+          ih v et (by have := List.sizeOf_lt_of_mem hv; simp at hs; omega) hn' (wfAll_mem vs hw v hv)
+            (documentedAll_mem et vs hd v hv) (excludedElems_mem p et vs hx v hv)
+        have hc := seq_conf p hp et _ _ _ (elems_conf p hp et vs hel)
+        simp only [marshal, interp]
+        cases isNil <;> first | exact hc.1 | exact hc.2 | simp [Conf]
+      | tuple ts =>
+        simp only [nest, Bool.and_eq_true, Bool.not_eq_true', List.isEmpty_eq_false_iff] at hn
+        simp only [wf, documented, excluded, Bool.and_eq_true, beq_iff_eq] at hw hd hx
+        have hal : AllConf p ts vs := allconf_of p ts vs (fun v hv t' => ih v t'
+          (by have := List.sizeOf_lt_of_mem hv; simp at hs; omega)) hn.2 hw hd.2 hx
+        have hc := tuple_conf p ts hn.1 _ _ (fields_conf p ts vs hn.2 hal)
+        simp only [marshal, interp, hd.1, ne_eq, not_true_eq_false, if_false, if_true]
+        exact hc
+      | _ => first | (simp [nest] at hn; done) | (simp [documented, documentedScalar] at hd; done)
+    | array vs =>
+      cases t with
+      | list et =>
+        have hn' : nest et = true := by simpa [nest] using hn
+        simp only [wf, documented, excluded] at hw hd hx
+        have hel : ∀ v ∈ vs, Conf p et (marshal p et v) (interp et v) := fun v hv =>
+          ih v et (by have := List.sizeOf_lt_of_mem hv; simp at hs; omega) hn' (wfAll_mem vs hw v hv)
+            (documentedAll_mem et vs hd v hv) (excludedElems_mem p et vs hx v hv)
+        have hc := seq_conf p hp et _ _ _ (elems_conf p hp et vs hel)
+        simp only [marshal, interp]
+        first | exact hc.1 | exact hc.2
+      | set et =>
+        have hn' : nest et = true := by simpa [nest] using hn
+        simp only [wf, documented, excluded] at hw hd hx
+        have hel : ∀ v ∈ vs, Conf p et (marshal p et v) (interp et v) := fun v hv =>
+          ih v et (by have := List.sizeOf_lt_of_mem hv; simp at hs; omega) hn' (wfAll_mem vs hw v hv)
+            (documentedAll_mem et vs hd v hv) (excludedElems_mem p et vs hx v hv)
+        have hc := seq_conf p hp et _ _ _ (elems_conf p hp et vs hel)
+        simp only [marshal, interp]
+        first | exact hc.1 | exact hc.2
+      | tuple ts =>
+        simp only [nest, Bool.and_eq_true, Bool.not_eq_true', List.isEmpty_eq_false_iff] at hn
+        simp only [wf, documented, excluded, Bool.and_eq_true, beq_iff_eq] at hw hd hx
+        have hal : AllConf p ts vs := allconf_of p ts vs (fun v hv t' => ih v t'
+          (by have := List.sizeOf_lt_of_mem hv; simp at hs; omega)) hn.2 hw hd.2 hx
+        have hc := tuple_conf p ts hn.1 _ _ (fields_conf p ts vs hn.2 hal)
+        simp only [marshal, interp, hd.1, ne_eq, not_true_eq_false, if_false, if_true]
+        exact hc
+      | _ => first | (simp [nest] at hn; done) | (simp [documented, documentedScalar] at hd; done)
+    | ifaces vs =>
+      cases t with
+      | list et =>
+        have hn' : nest et = true := by simpa [nest] using hn
+        simp only [wf, documented, excluded] at hw hd hx
+        have hel : ∀ v ∈ vs, Conf p et (marshal p et v) (interp et v) := fun v hv =>
+          ih v et (by have := List.sizeOf_lt_of_mem hv; simp at hs; omega) hn' (wfAll_mem vs hw v hv)
+            (documentedAll_mem et vs hd v hv) (excludedElems_mem p et vs hx v hv)
+        have hc := seq_conf p hp et _ _ _ (elems_conf p hp et vs hel)
+        simp only [marshal, interp]
+        first | exact hc.1 | exact hc.2
+      | set et =>
+        have hn' : nest et = true := by simpa [nest] using hn
+        simp only [wf, documented, excluded] at hw hd hx
+        have hel : ∀ v ∈ vs, Conf p et (marshal p et v) (interp et v) := fun v hv =>
+          ih v et (by have := List.sizeOf_lt_of_mem hv; simp at hs; omega) hn' (wfAll_mem vs hw v hv)
+            (documentedAll_mem et vs hd v hv) (excludedElems_mem p et vs hx v hv)
+        have hc := seq_conf p hp et _ _ _ (elems_conf p hp et vs hel)
+        simp only [marshal, interp]
+        first | exact hc.1 | exact hc.2
+      | tuple ts =>
+        simp only [nest, Bool.and_eq_true, Bool.not_eq_true', List.isEmpty_eq_false_iff] at hn
+        simp only [wf, documented, excluded, Bool.and_eq_true, beq_iff_eq] at hw hd hx
+        have hal : AllConf p ts vs := allconf_of p ts vs (fun v hv t' => ih v t'
+          (by have := List.sizeOf_lt_of_mem hv; simp at hs; omega)) hn.2 hw hd.2 hx
+        have hc := tuple_conf p ts hn.1 _ _ (ifaces_conf p ts vs hn.2 hal)
+        simp only [marshal, interp, hd.1, ne_eq, not_true_eq_false, if_false, if_true]
+        exact hc
+      | _ => first | (simp [nest] at hn; done) | (simp [documented, documentedScalar] at hd; done)
+    | mapset vs =>
+      cases t with
+      | list et =>
+        have hn' : nest et = true := by simpa [nest] using hn
+        simp only [wf, documented, excluded] at hw hd hx
+        have hel : ∀ v ∈ vs, Conf p et (marshal p et v) (interp et v) := fun v hv =>
+          ih v et (by have := List.sizeOf_lt_of_mem hv; simp at hs; omega) hn' (wfAll_mem vs hw v hv)
+            (documentedAll_mem et vs hd v hv) (excludedElems_mem p et vs hx v hv)
+        have hc := seq_conf p hp et _ _ _ (elems_conf p hp et vs hel)
+        simp only [marshal, interp]
+        first | exact hc.1 | exact hc.2
+      | set et =>
+        have hn' : nest et = true := by simpa [nest] using hn
+        simp only [wf, documented, excluded] at hw hd hx
+        have hel : ∀ v ∈ vs, Conf p et (marshal p et v) (interp et v) := fun v hv =>
+          ih v et (by have := List.sizeOf_lt_of_mem hv; simp at hs; omega) hn' (wfAll_mem vs hw v hv)
+            (documentedAll_mem et vs hd v hv) (excludedElems_mem p et vs hx v hv)
+        have hc := seq_conf p hp et _ _ _ (elems_conf p hp et vs hel)
+        simp only [marshal, interp]
+        first | exact hc.1 | exact hc.2
+      | _ => first | (simp [nest] at hn; done) | (simp [documented, documentedScalar] at hd; done)
+    | struct vs =>
+      cases t with
+      | tuple ts =>
+        simp only [nest, Bool.and_eq_true, Bool.not_eq_true', List.isEmpty_eq_false_iff] at hn
+        simp only [wf, documented, excluded, Bool.and_eq_true, beq_iff_eq] at hw hd hx
+        have hal : AllConf p ts vs := allconf_of p ts vs (fun v hv t' => ih v t'
+          (by have := List.sizeOf_lt_of_mem hv; simp at hs; omega)) hn.2 hw hd.2 hx
+        have hc := tuple_conf p ts hn.1 _ _ (fields_conf p ts vs hn.2 hal)
+        simp only [marshal, interp, hd.1, ne_eq, not_true_eq_false, if_false, if_true]
+        exact hc
+      | _ => first | (simp [nest] at hn; done) | (simp [documented, documentedScalar] at hd; done)
+    | map isNil kvs =>
+      cases t with
+      | map kt vt =>
+        simp only [nest, Bool.and_eq_true] at hn
+        simp only [wf, documented, excluded] at hw hd hx
+        have hel : ∀ kv ∈ kvs, Conf p kt (marshal p kt kv.1) (interp kt kv.1) ∧ Conf p vt (marshal p vt kv.2) (interp vt kv.2) :=
+          fun kv hv => by
+            have hsz := List.sizeOf_lt_of_mem hv
+            have hkv : sizeOf kv = 1 + sizeOf kv.1 + sizeOf kv.2 := by cases kv; simp
+            have hw' := wfPairs_mem kvs hw kv hv
+            have hd' := documentedPairs_mem kt vt kvs hd kv hv
+            have hx' := excludedPairs_mem p kt vt kvs hx kv hv
+            exact ⟨ih kv.1 kt (by simp at hs; omega) hn.1 hw'.1 hd'.1 hx'.1,
+                   ih kv.2 vt (by simp at hs; omega) hn.2 hw'.2 hd'.2 hx'.2⟩
+        have hc := map_conf p hp kt vt _ _ _ (pairs_conf p hp kt vt kvs hel)
+        simp only [marshal, interp]
+        cases isNil <;> first | exact hc | simp [Conf]
+      | _ => first | (simp [nest] at hn; done) | (simp [documented, documentedScalar] at hd; done)
+    | udtmap isNil names vs =>
+      cases t <;> first | (simp [nest] at hn; done) | (simp [documented, documentedScalar] at hd; done)
+    | udtstruct names vs =>
+      cases t <;> first | (simp [nest] at hn; done) | (simp [documented, documentedScalar] at hd; done)
+
+/-- CONFORMANCE BY STRUCTURAL INDUCTION -/
+theorem marshal_conforms (p : Nat) (hp : p ≥ 3) (t : CqlTy) (g : GoVal) (hn : nest t = true) (hw : wf g)
+    (hd : documented t g = true) (hx : excluded p t g = false) : Conf p t (marshal p t g) (interp t g) :=
+  conf_aux p hp (sizeOf g) g t (Nat.le_refl _) hn hw hd hx
+
 end C12Nest
